@@ -158,6 +158,9 @@ func (p c01) Gen(c *run.Ctx, idx int) (json.RawMessage, error) {
 	if idx%8 == 6 {
 		prof.PDupKey = 0.3
 	}
+	if idx%16 == 10 {
+		prof.PRootTypename = 1
+	}
 	if idx%5 == 4 {
 		// mirrored root field: the same entities under two response paths, follow-up requests
 		// (nearly) identical -> the executor's request de-duplication and per-path scrubbing
